@@ -175,6 +175,33 @@ BigRule(r, b, neg) ==
   /\ root' = BigRules[r].v \o " // {" \o BigRules[r].pre \o BigRules[r].r \o ": " \o (IF neg THEN "-" ELSE "") \o BigValues[b] \o "}"
   /\ typ' = "" /\ expect' = "unknown"
 
+\* ---- diagnostics that quote a piece of the rejected input: whatever that piece looks like - formatting directives
+\* of the implementation language, placeholders of other template languages, escapes, quotation marks - the rejection
+\* is the same diagnostic with the same code as for a harmless piece (C16); most of these projects are refused
+EchoTexts == <<"zz", "%!", "%s", "%d", "%v%v", "%!d(MISSING)", "%!(EXTRA string=x)", "100%", "%", "%%", "{0}", "$1", "`",
+               "<b>", "\\\\", "\\\"", "\\u0025!", "%!s", "a%!b">>
+EchoSites == <<"dupkey", "rule", "type", "enumdup", "email", "uri", "date", "datetime", "uuid", "regexbad", "regexmiss",
+               "enummiss", "or", "allof", "enum-rule", "regex-schema", "shortcut">>
+Echo(i, k) ==
+  LET t == EchoTexts[i] s == EchoSites[k] IN
+  /\ stage = "start" /\ stage' = "done" /\ list' = <<>>
+  /\ fam' = (IF s = "enum-rule" THEN "echo:enum" ELSE IF s = "regex-schema" THEN "echo:regex" ELSE "echo")
+  /\ root' = CASE s = "dupkey"    -> "{\n  \"" \o t \o "\": 1,\n  \"" \o t \o "\": 2\n}"
+               [] s = "rule"      -> "1 // {\"" \o t \o "\": 2}"
+               [] s = "type"      -> "1 // {type: \"" \o t \o "\"}"
+               [] s = "enumdup"   -> "\"" \o t \o "\" // {enum: [\"" \o t \o "\", \"" \o t \o "\"]}"
+               [] s \in {"email", "uri", "date", "datetime", "uuid"} -> "\"" \o t \o "\" // {type: \"" \o s \o "\"}"
+               [] s = "regexbad"  -> "\"a\" // {regex: \"(" \o t \o "\"}"
+               [] s = "regexmiss" -> "\"" \o t \o "\" // {regex: \"^zz$\"}"
+               [] s = "enummiss"  -> "\"" \o t \o "\" // {enum: [\"zz\", \"yy\"]}"
+               [] s = "or"        -> "1 // {or: [\"" \o t \o "\", \"string\"]}"
+               [] s = "allof"     -> "{} // {allOf: \"" \o t \o "\"}"
+               [] s = "enum-rule" -> "[\"" \o t \o "\", \"" \o t \o "\"]"
+               [] s = "regex-schema" -> "/(" \o t \o "/"
+               [] OTHER           -> "{\n  @t: 1\n}"
+  /\ typ' = (IF s = "shortcut" THEN "\"" \o t \o "\" // {type: \"email\"}" ELSE "")
+  /\ expect' = "unknown"
+
 Skels == {"root", "prop", "item", "ref"}
 Next == \/ StartEnum
         \/ \E i \in 1..N : EnumAdd(i)
@@ -188,6 +215,7 @@ Next == \/ StartEnum
         \/ \E r \in 1..Len(RuleNamesAll), v \in 1..Len(RuleValuesAll), x \in 1..2 : RuleKinds(r, v, x)
         \/ \E n \in ScaledSizes, sh \in 1..Len(ScaledShapes) : Scaled(n, sh)
         \/ \E i \in 1..(Len(TypeVocab) + 1) : ApVocab(i)
+        \/ \E i \in 1..Len(EchoTexts), k \in 1..Len(EchoSites) : Echo(i, k)
         \/ \E i \in 1..Len(KeyStrings), v \in {1, 4, 8} : KeyShortcut(i, v)
         \/ \E v \in OrValues, i, j \in 1..Len(TypeVocab), fi, fj \in {"name", "set"}, s \in {"root", "prop"}, nf \in BOOLEAN : OrVocab(v, i, j, fi, fj, s, nf)
 Spec == Init /\ [][Next]_vars
